@@ -56,7 +56,8 @@ def compare_val():
 
 
 def binary_expression():
-    return field_specifier, ["==", "!=", "^=", "$=", "~=", ">", ">=", "<", "<=", "&"], compare_val
+    # Longer operators need to come first, ordered choice would never get to ">=" after matching ">"
+    return field_specifier, ["==", "!=", "^=", "$=", "~=", ">=", ">", "<=", "<", "&"], compare_val
 
 
 def term():
